@@ -22,6 +22,8 @@ Fails(e) ==
     [] e.op = "lang_op"       -> JLangOp(e)
     [] e.op = "nfa_op"        -> JNfaOp(e)
     [] e.op = "iso"           -> JIso(e)
+    [] e.op = "session_replay" -> JSessionReplay(e)
+    [] e.op = "operands_kept" -> JOperandsKept(e)
     [] e.op = "re_accepts"    -> JReAccepts(e)
     [] e.op = "re_simplify"   -> JReSimplify(e)
     [] e.op = "re_to_nfa"     -> JReToNfa(e)
